@@ -21,7 +21,7 @@ func Parse(c *core.Ctx, raws []json.RawMessage) []*Scenario {
 			c.Broken("bad scenario JSON: %v", err)
 			return nil
 		}
-		if len(sc.Trace) != 6 || sc.Trace[0].Cfg == nil {
+		if len(sc.Trace) < 6 || sc.Trace[0].Cfg == nil {
 			c.Broken("unexpected behaviour shape (%d steps)", len(sc.Trace))
 			return nil
 		}
